@@ -296,7 +296,10 @@ func c12Histories(r *mc.Run) {
 	}
 	ops = append(ops, c12op{"Now=nil", 1, 0, 0}, c12op{"Now=explicit(T0)", 2, 0, 0}, c12op{"clock+25d", 3, 0, 0},
 		c12op{"TrustedRoots={look-alike}", 4, 0, 0}, c12op{"TrustedRoots={T}", 5, 0, 0}, c12op{"TrustedRoots=nil", 6, 0, 0},
-		c12op{"Now=explicit(T0+70d)", 2, 70, 0}, c12op{"env:pck-crl-lists-A's-leaf", 7, 1, 0}, c12op{"env:crls-clean", 7, 0, 0})
+		c12op{"Now=explicit(T0+70d)", 2, 70, 0}, c12op{"env:pck-crl-lists-A's-leaf", 7, 1, 0}, c12op{"env:crls-clean", 7, 0, 0},
+		// a time set of which the caller fills in the certificate-chain member only, and the caller moving the
+		// time set it owns forward in place (no new value assigned to Options.Now)
+		c12op{"Now={PckCertChain:T0}", 9, 0, 0}, c12op{"Now+=30d-in-place", 10, 30, 0})
 	if r.Thorough() {
 		ops = append(ops, c12op{"Now=explicit(T0+22d)", 2, 22, 0}, c12op{"env:A's-tcb-level-Revoked", 8, 1, 0}, c12op{"env:A's-tcb-level-UpToDate", 8, 0, 0})
 	}
@@ -326,20 +329,26 @@ func c12Histories(r *mc.Run) {
 	if r.Thorough() {
 		depth = 4
 	}
+	nowPartial := false
 	fresh := func(lvl int, nowNil bool, at time.Time, g *world.Getter) *verify.Options {
 		o := &verify.Options{GetCollateral: lvl == 1 || lvl == 2, CheckRevocations: lvl >= 2, Getter: g.Clone(), TrustedRoots: roots}
 		if !nowNil {
 			ts := world.TimeSetAt(at)
+			if nowPartial {
+				ts = verify.TimeSet{PckCertChain: at}
+			}
 			o.Now = &ts
 		}
 		return o
 	}
 	r.SerialOnly = true
-	for _, initNil := range []bool{false, true} {
-		initNil := initNil
-		initName := map[bool]string{false: "Now=explicit", true: "Now=nil"}[initNil]
+	for initKind := 0; initKind < 3; initKind++ {
+		initNil := initKind == 1
+		initPartial := initKind == 2
+		initName := []string{"Now=explicit", "Now=nil", "Now={PckCertChain-only}"}[initKind]
 		r.BFS("shared-options-histories/init:"+initName, depth, len(ops), func(hist []int) (string, bool) {
 			vsched.Reset()
+			nowPartial = initPartial
 			shared := fresh(0, initNil, world.T0, getter)
 			nowNil := initNil
 			nowAt := world.T0
@@ -357,7 +366,20 @@ func c12Histories(r *mc.Run) {
 					nowAt = world.T0.AddDate(0, 0, op.q)
 					ts := world.TimeSetAt(nowAt)
 					shared.Now = &ts
-					nowNil = false
+					nowNil, nowPartial = false, false
+				case 9:
+					nowAt = world.T0
+					shared.Now = &verify.TimeSet{PckCertChain: nowAt}
+					nowNil, nowPartial = false, true
+				case 10:
+					if !nowNil {
+						nowAt = nowAt.AddDate(0, 0, op.q)
+						if nowPartial {
+							shared.Now.PckCertChain = nowAt
+						} else {
+							*shared.Now = world.TimeSetAt(nowAt)
+						}
+					}
 				case 3:
 					vsched.Advance(25 * 24 * time.Hour)
 				case 4:
@@ -424,7 +446,7 @@ func c12Histories(r *mc.Run) {
 					r.Eval("hist/init:"+initName+"/"+c12HistName(ops, hist), true, "env-op")
 				}
 			}
-			return fmt.Sprintf("%s|t=%s|env=%d,%d|roots=%d", c12StateKey(shared), vsched.Elapsed(), envCrl, envTcb, rootsID), true
+			return fmt.Sprintf("%s|t=%s|env=%d,%d|roots=%d|partial=%v", c12StateKey(shared), vsched.Elapsed(), envCrl, envTcb, rootsID, nowPartial), true
 		})
 	}
 	_ = ref.MustAccept
